@@ -56,6 +56,14 @@ type Contract struct {
 	bound      bool
 	Decreases  string
 	LabelProps map[string][]string
+	CallCounts []CallCount
+}
+
+// CallCount declares a ghost counter: number of calls of Callee made by the
+// function under contract, per value of argument Arg (0-based, receiver first).
+type CallCount struct {
+	Callee string
+	Arg    int
 }
 
 type SpecFunc struct {
@@ -65,6 +73,7 @@ type SpecFunc struct {
 	Body   *Expr
 	Src    string
 	Macro  bool // heap-dependent predicate: expanded inline
+	Uninterp bool
 	Rec    bool
 	File   string
 	Line   int
@@ -108,7 +117,7 @@ var clauseKeywords = map[string]bool{
 	"loop": true, "invariant": true, "trusted": true, "spec": true, "pred": true, "owned": true,
 	"on": true, "inline": true, "maypanic": true, "nonblocking": true, "callsite": true, "sendsite": true,
 	"props": true, "nosweep": true, "assume": true, "iface": true, "lemma": true, "hyp": true, "concl": true,
-	"dispatch": true, "end": true, "fieldinv": true,
+	"dispatch": true, "end": true, "fieldinv": true, "callcount": true,
 }
 
 // parseContractFile reads one contract file. pkgPath is the import path of
@@ -297,6 +306,15 @@ func (db *ContractDB) parseContractFile(path, pkgPath string) {
 			} else {
 				cur.SendSites = append(cur.SendSites, cs)
 			}
+		case "callcount":
+			f := strings.Fields(it.text)
+			if cur == nil || len(f) != 2 || !strings.HasPrefix(f[1], "arg") {
+				db.Errors = append(db.Errors, fmt.Sprintf("%s:%d: callcount needs '<callee> argN'", path, it.line))
+				continue
+			}
+			n := 0
+			fmt.Sscanf(f[1][3:], "%d", &n)
+			cur.CallCounts = append(cur.CallCounts, CallCount{Callee: f[0], Arg: n})
 		case "spec", "pred":
 			sf, err := parseSpecFunc(it.kw, it.text)
 			if err != nil {
@@ -480,7 +498,20 @@ func parseSpecFunc(kw, text string) (*SpecFunc, error) {
 	}
 	eqi := indexTopEq(t)
 	if eqi < 0 {
-		return nil, fmt.Errorf("spec function needs '= body'")
+		// uninterpreted spec function: "spec func f(a T) R"
+		name, params, err := parseSig(t)
+		if err != nil {
+			return nil, err
+		}
+		sf.Name, sf.Params = name, params
+		if j := strings.LastIndex(t, ")"); j >= 0 {
+			sf.Result = strings.TrimSpace(t[j+1:])
+		}
+		if sf.Result == "" {
+			sf.Result = "bool"
+		}
+		sf.Uninterp = true
+		return sf, nil
 	}
 	head, body := strings.TrimSpace(t[:eqi]), strings.TrimSpace(t[eqi+1:])
 	name, params, err := parseSig(head)
